@@ -22,7 +22,7 @@ ASSUMPTIONS = [
     "legal(key) per the statement: encoded (ascii / utf8) + prefixed form is <=250 bytes and has no byte in {00,09,0a,0b,0c,0d,20}",
     "empty prefixed keys are excluded (C02's subject); only well-formed Unicode str keys are generated",
 ]
-MIN_NONTRIVIAL = {"quick": 30000, "thorough": 500000}
+MIN_NONTRIVIAL = {"quick": 30000, "thorough": 250000}
 REQUIRED_COUNTERS = ["contract_evaluations", "raise_path_evaluations", "wire_keys_checked",
                      "accepted", "rejected"]
 SHARDS = {"quick": 16, "thorough": 16}
@@ -234,7 +234,28 @@ def shard(tier, seed, idx, n):
                           hashmod.HashClient([("mc1", 11211)], **kw))
         return clients[k]
 
-    for i, (key, uni, prefix) in enumerate(gen_keys(tier, seed)):
+    def with_prefixed(gen):
+        # also keys that themselves begin with the configured prefix (a prefix must be applied, never 'recognised')
+        for j, (key, uni, prefix) in enumerate(gen):
+            yield key, uni, prefix
+            if prefix and j % 3 == 0:
+                try:
+                    yield (prefix + key if isinstance(key, bytes) else prefix.decode("ascii") + key), uni, prefix
+                except UnicodeDecodeError:
+                    pass
+
+    ign_clients = {}
+
+    def ign_client(uni, prefix):
+        k = (uni, prefix)
+        if k not in ign_clients:
+            if len(ign_clients) > 64:
+                ign_clients.clear()
+            ign_clients[k] = base.Client(("mc1", 11211), socket_module=net, allow_unicode_keys=uni, key_prefix=prefix,
+                                         ignore_exc=True)
+        return ign_clients[k]
+
+    for i, (key, uni, prefix) in enumerate(with_prefixed(gen_keys(tier, seed))):
         if i % n != idx:
             continue
         kb = key.encode("utf8", "surrogatepass") if isinstance(key, str) else key
@@ -261,6 +282,22 @@ def shard(tier, seed, idx, n):
                 res.count("wire_keys_checked")
                 return cmds[0].keys[0]
             judge_direct(res, st, base, "HashClient.get", hget, key, uni, prefix)
+            # Client with ignore_exc: a rejected key is still an input error, never a silent miss
+            ic = ign_client(uni, prefix)
+            n1, m1 = len(srv.cmdlog), len(srv.malformed)
+
+            def iget():
+                ic.get(key)
+                cmds = srv.cmdlog[n1:]
+                if srv.malformed[m1:]:
+                    return b"<malformed>"
+                if len(cmds) != 1 or cmds[0].verb != b"get" or len(cmds[0].keys) != 1:
+                    return b"<nothing sent: the key was silently dropped>"
+                res.count("wire_keys_checked")
+                return cmds[0].keys[0]
+            judge_direct(res, st, base, "Client(ignore_exc).get", iget, key, uni, prefix)
+            if srv.malformed[m1:]:
+                ign_clients.pop((uni, prefix), None)
             if srv.malformed[m0:]:
                 # desynchronised connection: start afresh
                 clients.pop((uni, prefix), None)
